@@ -589,7 +589,9 @@ func (e *Exec) applyContract(st *State, fr *Frame, ci *callInfo, c *FuncContract
 	sig := ci.sig
 	var res []Value
 	for i := 0; i < sig.Results().Len(); i++ {
-		res = append(res, e.freshValue(st, sig.Results().At(i).Type(), "ret."+shortName(c.Key)))
+		rv := e.freshValue(st, sig.Results().At(i).Type(), "ret."+shortName(c.Key))
+		zeroSliceOffsets(&rv)
+		res = append(res, rv)
 	}
 	if (!c.Assumed && len(c.Assigns) > 0) || c.AssignsAll {
 		// callees preserve the global invariants (every function of the cone
